@@ -15,6 +15,7 @@ import (
 	"os"
 	"path/filepath"
 	"strings"
+	"time"
 
 	"github.com/btcsuite/btcd/chaincfg/v2"
 	"github.com/lightninglabs/neutrino/headerfs"
@@ -46,6 +47,10 @@ type Env struct {
 	// Quiet suppresses deviations (used while the harness itself drives
 	// the stores for oracle purposes).
 	Quiet bool
+
+	// MemFiles replaces the flat files by in-memory files.
+	MemFiles bool
+	mem      map[string]*MemFile
 
 	Steps     int // durable steps performed
 	Deviated  []string
@@ -133,18 +138,34 @@ func (e *Env) wrap(name string, f headerfs.File) headerfs.File {
 	if !ok {
 		return f
 	}
-	e.open = append(e.open, of)
 	short := "block"
 	size := 80
 	if strings.Contains(filepath.Base(name), "filter") {
 		short = "filter"
 		size = 32
 	}
+	if e.MemFiles {
+		// In-memory flat files (O_APPEND semantics): no system calls, so
+		// a goroutine doing store I/O never hands the processor over,
+		// which keeps executions with several runnable goroutines
+		// deterministic. The real (empty) file is closed right away.
+		of.Close()
+		if e.mem == nil {
+			e.mem = map[string]*MemFile{}
+		}
+		mf, ok := e.mem[filepath.Base(name)]
+		if !ok {
+			mf = &MemFile{name: name}
+			e.mem[filepath.Base(name)] = mf
+		}
+		return &wfile{File: &memHandle{f: mf}, env: e, short: short, entry: size}
+	}
+	e.open = append(e.open, of)
 	return &wfile{File: of, env: e, short: short, entry: size}
 }
 
 type wfile struct {
-	*os.File
+	headerfs.File
 	env   *Env
 	short string
 	entry int
@@ -278,6 +299,9 @@ func (e *Env) commitHook(n int) error {
 // FileInfo returns size and current offset of a flat file, read through a
 // fresh descriptor (size) and the store's own descriptor (offset).
 func (e *Env) FileSize(name string) int64 {
+	if mf, ok := e.mem[name]; ok {
+		return int64(len(mf.data))
+	}
 	st, err := os.Stat(filepath.Join(e.Dir, name))
 	if err != nil {
 		return -1
@@ -301,6 +325,9 @@ func (e *Env) Offsets() string {
 
 // ReadFile returns the raw bytes of a flat file.
 func (e *Env) ReadFile(name string) []byte {
+	if mf, ok := e.mem[name]; ok {
+		return append([]byte(nil), mf.data...)
+	}
 	b, _ := os.ReadFile(filepath.Join(e.Dir, name))
 	return b
 }
@@ -320,3 +347,91 @@ func CatchCrash(f func()) (crashed bool, where string) {
 	f()
 	return false, ""
 }
+
+// MemFile is the shared content of an in-memory flat file; every open of the
+// same name gets its own handle (offset) onto it, like descriptors of a file.
+type MemFile struct {
+	name string
+	data []byte
+}
+
+type memHandle struct {
+	f   *MemFile
+	off int64
+}
+
+type memInfo struct {
+	name string
+	size int64
+}
+
+func (i memInfo) Name() string       { return filepath.Base(i.name) }
+func (i memInfo) Size() int64        { return i.size }
+func (i memInfo) Mode() os.FileMode  { return 0o644 }
+func (i memInfo) ModTime() time.Time { return time.Time{} }
+func (i memInfo) IsDir() bool        { return false }
+func (i memInfo) Sys() any           { return nil }
+
+func (h *memHandle) Read(p []byte) (int, error) {
+	if h.off >= int64(len(h.f.data)) {
+		return 0, io.EOF
+	}
+	n := copy(p, h.f.data[h.off:])
+	h.off += int64(n)
+	return n, nil
+}
+
+// Write appends (O_APPEND) and leaves the offset at the new end.
+func (h *memHandle) Write(p []byte) (int, error) {
+	h.f.data = append(h.f.data, p...)
+	h.off = int64(len(h.f.data))
+	return len(p), nil
+}
+
+func (h *memHandle) Close() error { return nil }
+
+func (h *memHandle) Seek(offset int64, whence int) (int64, error) {
+	switch whence {
+	case io.SeekStart:
+		h.off = offset
+	case io.SeekCurrent:
+		h.off += offset
+	case io.SeekEnd:
+		h.off = int64(len(h.f.data)) + offset
+	}
+	if h.off < 0 {
+		h.off = 0
+		return 0, errors.New("negative offset")
+	}
+	return h.off, nil
+}
+
+func (h *memHandle) ReadAt(p []byte, off int64) (int, error) {
+	if off >= int64(len(h.f.data)) {
+		return 0, io.EOF
+	}
+	n := copy(p, h.f.data[off:])
+	if n < len(p) {
+		return n, io.EOF
+	}
+	return n, nil
+}
+
+func (h *memHandle) Stat() (os.FileInfo, error) {
+	return memInfo{h.f.name, int64(len(h.f.data))}, nil
+}
+
+func (h *memHandle) Sync() error { return nil }
+
+func (h *memHandle) Truncate(size int64) error {
+	if size < 0 {
+		return errors.New("invalid argument")
+	}
+	for int64(len(h.f.data)) < size {
+		h.f.data = append(h.f.data, 0)
+	}
+	h.f.data = h.f.data[:size]
+	return nil
+}
+
+func (h *memHandle) Name() string { return h.f.name }
